@@ -31,6 +31,7 @@
 //   Y:<aggr>:<active pieces a.b.c>:<completed bits>  private snapshot of Delegator / completed set
 #include "config.h"
 
+#include <csignal>
 #include <deque>
 #include <filesystem>
 #include <map>
@@ -444,6 +445,7 @@ bool do_op(Case& c, const std::string& o, std::string& err) {
   const std::string& k = f[0];
   auto peer_ix = [&](size_t n) -> int { return n < f.size() ? std::stoi(f[n]) & 3 : 0; };
   if (k == "A") { advance(c, std::stoll(f.at(1))); return true; }
+  if (k == "ZZ") { usleep((useconds_t)std::stoul(f.at(1)) * 1000); return true; }   // real-time sleep: only to test the per-case watchdog
   if (k == "W") {
     uint32_t fi = std::stoul(f.at(1));
     int pr = std::stoi(f.at(2));
@@ -749,14 +751,28 @@ std::string run_case(Session& S, const std::string& line) {
 
 }  // namespace
 
+// per-case watchdog (ROBUSTNESS.md rule 5): a case that does not finish within LTV_CASE_TIMEOUT seconds of wall time
+// (default 30) is reported as ERR:hang for that case and the process exits; run_sharded resumes with the next case.
+static void on_alarm(int) {
+  static const char msg[] = "ERR:hang case exceeded its wall-clock budget\n";
+  ssize_t r = ::write(1, msg, sizeof msg - 1);
+  (void)r;
+  _exit(4);
+}
+
 int main() {
   std_setup();
+  signal(SIGALRM, on_alarm);
+  unsigned case_timeout = getenv("LTV_CASE_TIMEOUT") ? (unsigned)atoi(getenv("LTV_CASE_TIMEOUT")) : 30;
   std::unique_ptr<Session> S;
   std::string line;
   while (std::getline(std::cin, line)) {
     try {
       if (!S) S = std::make_unique<Session>();
-      std::cout << run_case(*S, line) << "\n";
+      alarm(case_timeout);
+      std::string result = run_case(*S, line);
+      alarm(0);
+      std::cout << result << "\n";
     } catch (torrent::internal_error& e) {
       std::cout << "ERR:internal " << e.what() << "\n";
       std::cout.flush();
